@@ -7,6 +7,7 @@ import (
 	"errors"
 	"fmt"
 	"io"
+	"math"
 	"math/rand"
 	"net"
 	"sync/atomic"
@@ -759,7 +760,7 @@ func (p *protocolV2) REQ(client *clientV2, params [][]byte) ([]byte, error) {
 		return nil, protocol.NewFatalClientErr(err, "E_INVALID",
 			fmt.Sprintf("REQ could not parse timeout %s", params[2]))
 	}
-	timeoutDuration := time.Duration(timeoutMs) * time.Millisecond
+	timeoutDuration := msToDuration(timeoutMs)
 
 	maxReqTimeout := p.nsqd.getOpts().MaxReqTimeout
 	clampedTimeout := timeoutDuration
@@ -922,7 +923,7 @@ func (p *protocolV2) DPUB(client *clientV2, params [][]byte) ([]byte, error) {
 		return nil, protocol.NewFatalClientErr(err, "E_INVALID",
 			fmt.Sprintf("DPUB could not parse timeout %s", params[2]))
 	}
-	timeoutDuration := time.Duration(timeoutMs) * time.Millisecond
+	timeoutDuration := msToDuration(timeoutMs)
 
 	if timeoutDuration < 0 || timeoutDuration > p.nsqd.getOpts().MaxReqTimeout {
 		return nil, protocol.NewFatalClientErr(nil, "E_INVALID",
@@ -1060,4 +1061,15 @@ func enforceTLSPolicy(client *clientV2, p *protocolV2, command []byte) error {
 			fmt.Sprintf("cannot %s in current state (TLS required)", command))
 	}
 	return nil
+}
+
+// msToDuration converts a millisecond count to a time.Duration, saturating at the
+// largest representable duration instead of overflowing (and wrapping to a small or
+// negative value) for counts beyond the int64 nanosecond range.
+func msToDuration(ms uint64) time.Duration {
+	const maxMs = uint64(math.MaxInt64 / int64(time.Millisecond))
+	if ms > maxMs {
+		return time.Duration(math.MaxInt64)
+	}
+	return time.Duration(ms) * time.Millisecond
 }
